@@ -4,6 +4,7 @@ import PlcModel.Parse.Lit
 import PlcProofs.Lemmas.MirrorExpr
 import PlcProofs.Lemmas.RenderWords
 import PlcProofs.Lemmas.MirrorPrint
+import PlcProofs.Lemmas.MirrorPrintLib
 
 /-!
 # C10 — re-rendering round-trips
@@ -26,6 +27,9 @@ What is proved (for trees of unbounded size and depth):
   after each statement, ELSE only before a non-empty branch — is read back by the parser mirror to exactly the dsl trees of
   the list.  The only hypotheses are about the leaves (names are identifier tokens, operators are rows of `Gen.prec`,
   selector literals are integers) and the bodies the grammar wants non-empty.
+* `mirror_reads_printed_library` — and for whole libraries: any sequence of programs, function blocks (with or without a VAR
+  block of elementary-typed variables) and functions (`MX.APou`), printed as the renderer prints declarations, is read back by
+  `Parse.library` to exactly the library that was printed, the whole text consumed.
 * `renderer_model_prints_full_parentheses` — the renderer model `Render.RE`, which the check compares
   lexeme by lexeme with `write_to_string` on every generated library, writes exactly that printing
   for the dsl tree of every expression over the operators of the generated precedence table.
@@ -89,6 +93,24 @@ example :
   refine ⟨⟨⟨rfl, ⟨⟨rfl, rfl⟩, trivial⟩, ⟨rfl, ⟨trivial, trivial⟩, rfl, trivial⟩, trivial⟩, ⟨rfl, rfl, rfl, ?_⟩, trivial⟩, rfl, by decide⟩
   intro m hm
   cases hm
+
+/-- **Printed libraries are read back** (declarations in order, names, variables, statement trees; whole input consumed). -/
+theorem mirror_reads_printed_library (ps : List MX.APou) (h : ∀ p ∈ ps, p.Ok) :
+    Parse.library ((ps.map MX.APou.pr).flatMap MX.Pou.toks) = some (.n "Library" [("elements", .l (ps.map MX.APou.elem))]) :=
+  MX.printed_library_read_back ps h
+
+/-- non-vacuity: `FUNCTION f : INT f := c; END_FUNCTION` and `PROGRAM main VAR n : INT; END_VAR n := c; END_PROGRAM` are `Ok` -/
+example :
+    let id (s : String) : Item := ⟨false, "Identifier", 0, 0, 0, 0, s.toList⟩
+    let int : Item := ⟨false, "Int", 0, 0, 0, 0, "INT".toList⟩
+    (MX.APou.fn (id "f") int "INT" (.cons (.assign (id "f") (.leaf (id "c"))) .nil)).Ok ∧
+    (MX.APou.prog (id "main") [⟨id "n", int, "INT"⟩] (.cons (.assign (id "n") (.leaf (id "c"))) .nil)).Ok := by
+  intro id int
+  refine ⟨⟨rfl, MX.elementary_int _ rfl, by decide, ⟨⟨rfl, rfl⟩, trivial⟩, rfl⟩, ⟨rfl, ?_, ⟨⟨rfl, rfl⟩, trivial⟩, rfl⟩⟩
+  intro d hd
+  simp only [List.mem_singleton] at hd
+  subst hd
+  exact ⟨rfl, MX.elementary_int _ rfl, by decide, by decide, by decide, by decide, by decide, by decide⟩
 
 /-- The renderer model writes the fully parenthesised printing (operators = rows of `Gen.prec`). -/
 theorem renderer_model_prints_full_parentheses (e : Expr) (h : RenderExpr.OpsOk e) (k : Nat) :
